@@ -3,6 +3,8 @@ import NdnProofs.Lemmas.Lvs.Sem
 import NdnProofs.Lemmas.Lvs.Example
 import NdnProofs.Lemmas.Lvs.CompileVDet
 import NdnProofs.Lemmas.Lvs.CompileExample
+import NdnProofs.Lemmas.Lvs.SrcExec
+import NdnProofs.Lemmas.Lvs.SrcRename
 /-!
 # C11 — a compiled trust schema matches exactly the names it describes (compiled-model level)
 
@@ -22,17 +24,33 @@ nodes and tags if the two differ only in that), and the Lean matcher then runs o
 
 **What is proved about the compiler model**: every model it emits for an AST the parser can produce is
 `Sane` and `VDet` (`compiled_match_iff`: the hypotheses of `compile_correct_partial` are discharged for
-compiler output); and the last layer of `compile_correct`, **node merging** (`tree_eq_chains`,
-`checker_reports_iff_chain`): the tree `_generate_node` builds from the replicated rule chains accepts a name
-at a node carrying rule `r`, with bindings `σ'`, iff one of the chains of `r` accepts the name on its own with
-the same bindings (`ChainRun`: literals equal; the constraints `pattern_movement` attaches to the first
-occurrence of a pattern hold under the bindings made so far; a named pattern binds or repeats; a temporary one
-binds nothing) — given that the merge key (`pattern_movement`'s string) determines tag and constraints
-(`KeyInj`, a hypothesis: it is a property of the string encoding, true for identifiers the grammar admits;
-`merge_key_test_sound`: it follows from a computable test the drivers evaluate on every generated schema).
-**What is not proved**: the two earlier layers of `compile_correct` — numbering preserves the source
-semantics, and replication = union over DNF alternatives and inlined references (with fresh temporaries per
-occurrence) — and `KeyInj` itself.  These rest on the correspondence run and the source-level oracle.
+compiler output); and all layers of `compile_correct`:
+
+* **source semantics** (`NdnModel/Lvs/SrcSem.lean`, a transcription of docs/src/lvs/lvs.rst that knows nothing of the
+  compiler): `SrcMatches S fns rid σ name σ'` — some definition of `rid`, with one of its constraint sets and with every
+  embedded rule replaced by one of its definitions (`Expands`), matches `name` left to right (`Flat.run`: literals equal,
+  a named pattern binds or repeats its binding, a temporary pattern is local to its occurrence and carries its own
+  constraints, every constraint on a pattern — own or inherited — has an option that holds under the bindings made so
+  far where the pattern is first met);
+* **numbering** (`genPatternNumbers_num`): a named pattern has one number everywhere, every occurrence of a temporary
+  pattern a negative number of its own, a constraint on `_x` lists the numbers of the occurrences of `_x` in its rule;
+* **replication** (`replicateLoop_sem`, `chainsOf_sem`): the chains `_replicate_rules` produces are, rule by rule, exactly
+  the expansions of the definitions — DNF alternatives, repeated definitions, inlined references; `_fresh_temp_tags` is an
+  injective renaming into numbers not in use, so every copy of a referenced rule keeps its own constraints (`Impl`:
+  position by position, a chain carries the numbered form of what the expansion has there);
+* **a chain accepts what its expansion matches** (`impl_run`), **node merging** (`tree_eq_chains`,
+  `checker_reports_iff_chain`: the tree accepts at a node carrying rule `r` iff one of the chains of `r` accepts, given
+  that the merge key determines tag and constraints — `KeyInj`, a hypothesis about the string encoding of the key, which
+  follows from a computable test the drivers evaluate on every generated schema, `merge_key_test_sound`);
+* composed: **`compile_correct`** — `Checker.match` on the compiled model reports rule `rid` with bindings `σ'` iff the name
+  matches `rid` as written with these bindings (`compile_correct_named`: for the text as written, when `rid` is not a
+  temporary rule; temporary rules are judged under the identifier pass 1 gives them).
+* the executable form of the source semantics (`srcMatch`, which the drivers run and the harness compares with the real
+  `Checker.match` and with the Python oracle on every generated schema and name) computes `SrcMatches`
+  (`srcMatch_computes`).
+
+**What is not proved**: `KeyInj` as a general fact about the key encoding (it is a hypothesis of `compile_correct`,
+discharged schema by schema by the computable test); model = code (sampled by the correspondence run).
 -/
 namespace Ndn.C11
 open Ndn Ndn.Lvs
@@ -71,15 +89,10 @@ theorem matchTree_iff_Sem (m : Model) (hs : Sane m) (hv : VDet m) (env : FnEnv) 
   ⟨Ndn.Lvs.matchTree_sound m env name _ _ _ _,
    fun h => matchTree_complete m env (edgeTotal_of_sane hs env henv) hv h Reach.start⟩
 
-/-- **compile_correct_partial.**  Full statement (not proved):
-    `WFSchema S → ∀ name, {(rule, bindings) reported by Checker(compile S).match name} = Sem S name`,
-    where `Sem` is the source-level semantics of docs/src/lvs/lvs.rst.  The compiler is modelled
-    (`Ndn.Lvs.compile`), its output is proved `Sane` and `VDet` (`compiled_match_iff`), and the node-merging
-    layer is proved (`tree_eq_chains`, `checker_reports_iff_chain`: compiled tree = union of its chains, given
-    an injective merge key); the numbering and replication layers (chains = source rules) are not.
-    Proved part, for every model that passes the loader (in particular the compiler's output, used
-    directly or after save/load, which yields the same `Model` value): the iterative checker reports node
-    `n` with bindings `σ'` iff `name` matches `n` with `σ'` in the denotation of the compiled tree. -/
+/-- **compile_correct_partial.**  The compiled-model layer of `compile_correct` (below), for every model that passes
+    the loader (in particular the compiler's output, used directly or after save/load, which yields the same `Model`
+    value): the iterative checker reports node `n` with bindings `σ'` iff `name` matches `n` with `σ'` in the
+    denotation of the compiled tree. -/
 theorem compile_correct_partial (m : Model) (hs : Sane m) (hv : VDet m) (env : FnEnv) (henv : EnvTotal env)
     (name : List Bytes) (σ : Ctx) (n : Nat) (σ' : Ctx) :
     (n, σ') ∈ (matchIter m env name σ).outs ↔ Matches m (pureOf env) σ name n σ' := by
@@ -149,6 +162,74 @@ theorem checker_reports_iff_chain (S : Schema) (hwf : S.WF) (m : Model) (syms : 
   · intro ⟨n, node, hm, hn, hr⟩
     exact ⟨n, node, (compiled_match_iff S hwf m syms h env henv name σ n σ').mpr hm, hn, hr⟩
 
+/-! ### source text = compiled model -/
+
+/-- **compile_correct** (source semantics = what `Checker.match` reports on the compiled model).
+    For a schema the parser can produce (`Schema.WF`) that compiles, total user functions and initial bindings `σ` over the
+    named patterns of the schema (`[]` for `Checker.match`; the packet's bindings when `check` matches the key name):
+    the iterative checker yields a node carrying rule `rid`, with bindings `σn'`, **iff** the name matches rule `rid` as
+    written (`SrcMatches`, docs/src/lvs/lvs.rst) with bindings `σ'` whose numbered form is `σn'` (`encCtx`: identifier ↦
+    its tag in the symbol table).  The rules are those of the text with temporary rules under the identifier pass 1 gives
+    them (`#_x#k`); see `compile_correct_named`.  Hypothesis `hkey`: the merge key of `pattern_movement` determines tag and
+    constraints on the chains of this schema (`compile_correct_keytest`: it follows from the computable test `keyInjB`). -/
+theorem compile_correct (S : Schema) (hwf : S.WF) (m : Model) (syms : List String) (h : compile S = .ok (m, syms))
+    (hkey : ∀ chains, chainsOf S = .ok (chains, syms) → KeyInj chains)
+    (env : FnEnv) (henv : EnvTotal env) (σ : SCtx) (hσ : SCtxIn syms σ) (name : List Bytes) (σn' : Ctx) (rid : String) :
+    (∃ n node, (n, σn') ∈ (matchIter m env name (encCtx syms σ)).outs ∧ m.nodes[n]? = some node ∧ rid ∈ node.ruleNames) ↔
+      ∃ σ', σn' = encCtx syms σ' ∧ SrcMatches ⟨renameTemps S.rules 1⟩ (pureOf env) rid σ name σ' := by
+  obtain ⟨chains, hch, _⟩ := compile_split S m syms h
+  rw [checker_reports_iff_chain S hwf m syms chains h hch (hkey chains hch) env henv (encCtx syms σ)
+    (ctxLe_encCtx hσ) name σn' rid]
+  exact chains_iff_src S chains syms hch (pureOf env) σ hσ name σn' rid
+
+/-- **compile_correct_keytest.** `compile_correct` for `Checker.match` (no initial bindings), with the merge-key hypothesis
+    replaced by the computable test the drivers evaluate on every generated schema. -/
+theorem compile_correct_keytest (S : Schema) (hwf : S.WF) (m : Model) (syms : List String) (h : compile S = .ok (m, syms))
+    (hkey : ∀ chains, chainsOf S = .ok (chains, syms) → keyInjB chains = true)
+    (env : FnEnv) (henv : EnvTotal env) (name : List Bytes) (σn' : Ctx) (rid : String) :
+    (∃ n node, (n, σn') ∈ (matchIter m env name []).outs ∧ m.nodes[n]? = some node ∧ rid ∈ node.ruleNames) ↔
+      ∃ σ', σn' = encCtx syms σ' ∧ SrcMatches ⟨renameTemps S.rules 1⟩ (pureOf env) rid [] name σ' :=
+  compile_correct S hwf m syms h (fun chains hch => merge_key_test_sound chains (hkey chains hch)) env henv []
+    (by intro p hp; simp at hp) name σn' rid
+
+/-- **compile_correct_named.** For a rule that is not temporary the statement holds for the text exactly as written. -/
+theorem compile_correct_named (S : Schema) (hwf : S.WF) (m : Model) (syms : List String) (h : compile S = .ok (m, syms))
+    (hkey : ∀ chains, chainsOf S = .ok (chains, syms) → KeyInj chains)
+    (env : FnEnv) (henv : EnvTotal env) (σ : SCtx) (hσ : SCtxIn syms σ) (name : List Bytes) (σn' : Ctx) (rid : String)
+    (hrid : isTempRule rid = false) :
+    (∃ n node, (n, σn') ∈ (matchIter m env name (encCtx syms σ)).outs ∧ m.nodes[n]? = some node ∧ rid ∈ node.ruleNames) ↔
+      ∃ σ', σn' = encCtx syms σ' ∧ SrcMatches S (pureOf env) rid σ name σ' := by
+  rw [compile_correct S hwf m syms h hkey env henv σ hσ name σn' rid]
+  constructor
+  · rintro ⟨σ', he, hm⟩; exact ⟨σ', he, (srcMatches_rename S _ rid hrid σ name σ').mp hm⟩
+  · rintro ⟨σ', he, hm⟩; exact ⟨σ', he, (srcMatches_rename S _ rid hrid σ name σ').mpr hm⟩
+
+/-- **chains_are_expansions** (numbering + replication).  The chains the tree is generated from are, rule by rule, the
+    expansions of the definitions of the text: every chain implements (`Impl`) an expansion of a definition with its
+    identifier and carries that definition's signers, and every expansion of every rule is implemented by a chain. -/
+theorem chains_are_expansions (S : Schema) (chains : List Chain) (syms : List String) (h : chainsOf S = .ok (chains, syms)) :
+    (∀ c ∈ chains, ∃ r ∈ renameTemps S.rules 1, r.id = c.id ∧ c.sign = isort strLe r.sign ∧
+      ∃ f, ExpandsDef ⟨renameTemps S.rules 1⟩ r f ∧ Impl syms c f) ∧
+    (∀ q f, Expands ⟨renameTemps S.rules 1⟩ q f → ∃ c ∈ chains, c.id = q ∧ Impl syms c f) := by
+  obtain ⟨_, h1, h2⟩ := chainsOf_sem S chains syms h
+  exact ⟨fun c hc => (h1 c hc).2, h2⟩
+
+/-- **chain_accepts_iff_src** (a chain accepts what the text says): see `chains_iff_src`. -/
+theorem chain_accepts_iff_src (S : Schema) (chains : List Chain) (syms : List String) (h : chainsOf S = .ok (chains, syms))
+    (fns : PureEnv) (σ : SCtx) (hσ : SCtxIn syms σ) (name : List Bytes) (σn' : Ctx) (rid : String) :
+    (∃ rc ∈ chains, rc.id = rid ∧ ChainRun fns rc rc.name [] (encCtx syms σ) name σn') ↔
+      ∃ σ', σn' = encCtx syms σ' ∧ SrcMatches ⟨renameTemps S.rules 1⟩ fns rid σ name σ' :=
+  chains_iff_src S chains syms h fns σ hσ name σn' rid
+
+/-- **srcMatch_computes.** The executable form of the source semantics — what the model drivers answer to `src-match` and
+    the harness compares with the real `Checker.match` and with the Python oracle — lists exactly the pairs (rule, bindings)
+    of `SrcMatches`, for every schema pass 1 accepts (defined, non-temporary, acyclic rule references). -/
+theorem srcMatch_computes (S : Schema) (srules : List SRule) (h : sortRuleReferences S = .ok srules) (fns : PureEnv)
+    (σ : SCtx) (name : List Bytes) (rid : String) (σ' : SCtx) :
+    (rid, σ') ∈ srcMatch ⟨renameTemps S.rules 1⟩ fns σ name ↔
+      SrcMatches ⟨renameTemps S.rules 1⟩ fns rid σ name σ' :=
+  mem_srcMatch_iff S srules h fns σ name rid σ'
+
 /-- the compiler emits one value edge per distinct component -/
 theorem compiled_vdet (S : Schema) (m : Model) (syms : List String) (h : compile S = .ok (m, syms)) : VDet m :=
   compile_vdet S m syms h
@@ -203,5 +284,36 @@ open Example in
 example : Matches model (pureOf allFns) [] [cD, cE] 2 [(1, cE)] :=
   (compiled_match_iff schema schema_wf model ["x"] compile_schema allFns
     (fun _ => ⟨_, rfl, fun _ _ => ⟨true, rfl⟩⟩) [cD, cE] [] 2 [(1, cE)]).mp (by decide)
+
+/-- the source semantics on the example: `/k/a` matches `#k` as written with `x = a`; `/k/e` matches nothing -/
+example : srcMatch ⟨renameTemps Example.schema.rules 1⟩ (pureOf Example.allFns) [] [Example.cK, Example.cA] =
+    [("#k", [("x", Example.cA)])] ∧
+    srcMatch ⟨renameTemps Example.schema.rules 1⟩ (pureOf Example.allFns) [] [Example.cK, Example.cE] = [] := by
+  decide +kernel
+theorem example_src_k : SrcMatches ⟨renameTemps Example.schema.rules 1⟩ (pureOf Example.allFns) "#k" []
+    [Example.cK, Example.cA] [("x", Example.cA)] := by
+  cases h : sortRuleReferences Example.schema with
+  | ok r => exact (srcMatch_computes Example.schema r h _ [] _ "#k" _).mp (by decide +kernel)
+  | error e => have := chainsOf_of_sort_error h; rw [Example.chainsOf_schema] at this; simp at this
+/-- `compile_correct` on the example: the checker reports `#p` for `/d/e` with tag 1 ↦ `e`, so the text matches with `x = e` -/
+example : ∃ σ', [(1, Example.cE)] = encCtx ["x"] σ' ∧
+    SrcMatches ⟨renameTemps Example.schema.rules 1⟩ (pureOf Example.allFns) "#p" [] [Example.cD, Example.cE] σ' :=
+  (compile_correct_keytest Example.schema Example.schema_wf Example.model ["x"] Example.compile_schema
+    (fun chains hch => by
+      rw [Example.chainsOf_schema] at hch
+      injection hch with hch
+      simp only [Prod.mk.injEq] at hch
+      rw [← hch.1]; decide)
+    Example.allFns (fun _ => ⟨_, rfl, fun _ _ => ⟨true, rfl⟩⟩) [Example.cD, Example.cE] [(1, Example.cE)] "#p").mp
+    ⟨2, Example.model.nodes[2], by decide, rfl, by decide⟩
+example : ∀ q f, Expands ⟨renameTemps Example.schema.rules 1⟩ q f → ∃ c ∈ Example.chains, c.id = q ∧ Impl ["x"] c f :=
+  (chains_are_expansions Example.schema Example.chains ["x"] Example.chainsOf_schema).2
+example : ∃ rc ∈ Example.chains, rc.id = "#k" ∧
+    ChainRun (pureOf Example.allFns) rc rc.name [] (encCtx ["x"] []) [Example.cK, Example.cA] (encCtx ["x"] [("x", Example.cA)]) :=
+  (chain_accepts_iff_src Example.schema Example.chains ["x"] Example.chainsOf_schema (pureOf Example.allFns) []
+    (by intro p hp; simp at hp) [Example.cK, Example.cA] _ "#k").mpr
+    ⟨[("x", Example.cA)], rfl, example_src_k⟩
+example : SrcMatches Example.schema (pureOf Example.allFns) "#k" [] [Example.cK, Example.cA] [("x", Example.cA)] :=
+  (srcMatches_rename Example.schema _ "#k" (by decide) [] _ _).mp example_src_k
 
 end Ndn.C11
